@@ -23,7 +23,7 @@ GEN = ['Units', 'InterpGrid']
 OPS = ['C13']
 RULE = ('pairs of dyadic spectra (2..8 samples each; identical / nested / overlapping / touching / disjoint ranges; uniform and '
         'non-uniform grids), operators add/subtract/multiply/divide, sampling min/left/right/float, fill 0/1.5/2, all 16 wavelength-unit '
-        'pairs, unitless and density values; scalar (int/float, incl. power and reflected multiply) and vector operands (equal length, '
+        'pairs, unitless and density values; scalar (int/float, incl. power and reflected multiply) and vector operands; reflected forms of all five operators with ndarray / int64 ndarray / list / np.float64 / float / int / 0-d array on the left (result must be one element-wise Spectrum or a TypeError, left*s = s*left); (equal length, '
         'length 1, wrong length). distinct = (kind, op, sampling, units, sizes, first data); non-trivial = ranges differ or units differ')
 TRUSTED = ['scipy.interpolate.interp1d(kind="linear") is the piecewise-linear interpolant; np.linspace(a,b,n)[i] = a + i(b-a)/(n-1); np.clip',
            'NumPy ufuncs add/subtract/multiply/true_divide/power act element-wise']
@@ -73,6 +73,13 @@ def _extremes(rng, k):
 def generate(rng, tier):
     n = {'quick': 200, 'thorough': 4000, 'search': 1000}[tier]
     out = _extremes(rng, {'quick': 6, 'thorough': 90, 'search': 60}[tier])
+    # reflected operations: a NumPy array / NumPy scalar / list / Python number on the LEFT of each of the five operators
+    for fnr in ('add', 'subtract', 'multiply', 'divide', 'power'):
+        for left in ('ndarray', 'f64', 'list', 'float', 'int', '0d', 'i64arr'):
+            if tier == 'quick' and rng.integers(0, 2) and fnr != 'multiply': continue
+            w = inc_grid(rng, int(rng.integers(2, 9)), bits=2)
+            out.append({'kind': 'reflected', 'fn': fnr, 'left': left, 'w1': w, 'v1': [dyadic(rng, 0.125, 8, 3) for _ in w],
+                        'lv': [float(int(x)) for x in rng.integers(1, 5, len(w))], 'c': float(int(rng.integers(1, 5)))})
     for i in range(n):
         t = i % 8
         if t < 6:
@@ -135,6 +142,7 @@ def generate(rng, tier):
     return out
 
 def signature(c):
+    if c['kind'] == 'reflected': return f"reflected {c['fn']} {c['left']} {len(c['w1'])} {c['w1'][:2]}"
     if c['kind'] == 'pair' and (c.get('method', 'linear') != 'linear' or c.get('vu2', c['vu']) != c['vu']): return f"pair* {c['method']} {c['vu']}/{c.get('vu2')} {c['fn']} {c['sampling']} {c['u1']} {c['u2']} {c['w1'][:2]} {c['w2'][:2]}"
     if c['kind'] == 'bb': return f"bb {c['fn']} {c['u1']} {c['ub']} {c['vu']} {c['temp']} {c['bb_left']} {c['w1'][:2]} {len(c['wb'])}"
     if c['kind'] == 'pair': return f"pair {c.get('dt1')}/{c.get('dt2')} {c['fn']} {c['sampling']} {c['u1']} {c['u2']} {c['vu']} {len(c['w1'])} {len(c['w2'])} {c['w1'][:2]} {c['w2'][:2]}"
@@ -142,6 +150,7 @@ def signature(c):
 def nontrivial(c): return c['kind'] != 'pair' or c.get('rel') == 'fine' or c['w1'] != c['w2'] or c['u1'] != c['u2']
 def tags(c):
     t = [c['kind'], 'op:' + c['fn']]
+    if c['kind'] == 'reflected': return t + ['left:' + c['left']]
     if c['kind'] == 'bb': return t + ['bb:' + ('left' if c['bb_left'] else 'right'), 'bb:units=' + ('same' if c['u1'] == c['ub'] else 'mixed')]
     if 'fk' in c: t.append('fill:' + c['fk'])
     t.append('dtype:' + c.get('dt1', 'float') + ('/' + c['dt2'] if 'dt2' in c else ''))
@@ -238,6 +247,23 @@ def impl(c):
                 o = {'res': _out(r), 'unchanged': (_snap(a) == snaps[0], _snap(b) == snaps[1]), 'H': R.H, 'C': R.C, 'K': R.K}
             if g.msg: return {'guard': g.msg}
             return o
+        if k == 'reflected':
+            s1 = R.Spectrum(np.array(c['w1']), np.array(c['v1']))
+            left = {'ndarray': np.array(c['lv']), 'i64arr': np.array(c['lv']).astype(np.int64), 'list': list(c['lv']), 'f64': np.float64(c['c']), 'float': float(c['c']),
+                    'int': int(c['c']), '0d': np.array(c['c'])}[c['left']]
+            b1 = _snap(s1)
+            o = {}
+            try:
+                r = OPER[c['fn']](left, s1)
+                o['type'] = type(r).__name__
+                if isinstance(r, R.Spectrum): o['res'] = _out(r)
+                else: o['repr'] = (str(getattr(r, 'dtype', '')), str(getattr(r, 'shape', '')))
+            except TypeError:
+                o['exc'] = 'TypeError'
+            if c['fn'] == 'multiply':
+                o['comm'] = _out(OPER['multiply'](s1, left))
+            o['unchanged'] = _snap(s1) == b1
+            return o
         s1 = R.Spectrum(np.array(c['w1']), np.array(c['v1']).astype(DT[c.get('dt1', 'float')]))
         return _single(c, R, s1)
 
@@ -288,6 +314,11 @@ def requests(c, io):
     if '_harness_exc' in io or 'guard' in io: return []
     k = c['kind']
     if k == 'bb': return []
+    if k == 'reflected':
+        if 'res' not in io or c['fn'] != 'multiply': return []
+        s1 = {'wave': qs(c['w1']), 'value': qs(c['v1'])}
+        if c['left'] in ('ndarray', 'list', 'i64arr'): return [{'op': 'c13.vector', 'fn': 'multiply', 's1': s1, 'v': qs(c['lv'])}]
+        return [{'op': 'c13.scalar', 'fn': 'multiply', 's1': s1, 'c': q(c['c'])}]
     if k == 'pair' and (len(io['res']['wave']) > 6000 or c.get('method', 'linear') != 'linear'): return []      # very fine grids: oracle only (grid laws + pointwise recomputation)
     if k == 'pair':
         sp = lambda o: {'wave': qs(o['wave']), 'value': qs(o['value']), 'wu': o['wu'], 'vu': o['vu']}
@@ -302,6 +333,7 @@ def _fl(ps): return [float(unq(p)) for p in ps]
 
 def compare(c, io, mo):
     if 'guard' in io or not mo: return None
+    if c['kind'] == 'reflected' and 'res' not in io: return None
     m = mo[0]
     if 'exc' in io: return None if (not m.get('ok') and m.get('err') == io['exc']) else f"impl raised {io['exc']}, model {str(m)[:100]}"
     if not m.get('ok'): return f"model refused ({m.get('err')}), implementation answered"
@@ -349,8 +381,25 @@ def _oracle_bb(c, io):
                     f"{c['fn']} of the operands there (Blackbody = Planck's law at {c['temp']} K) is {want!r}")
     return None
 
+def _oracle_reflected(c, io):
+    sym = {'add': '+', 'subtract': '-', 'multiply': '*', 'divide': '/', 'power': '**'}[c['fn']]
+    what = f"{c['left']} {sym} Spectrum"
+    if not io['unchanged']: return f'{what}: the spectrum operand was changed'
+    lv = np.array(c['lv']) if c['left'] in ('ndarray', 'list', 'i64arr') else c['c']
+    if 'exc' in io:
+        # only * has a reflected form today (__rmul__); the other operators may refuse, but must not return a non-spectrum
+        return None if c['fn'] != 'multiply' else f'{what} raised TypeError'
+    if io['type'] != 'Spectrum': return f"{what} returned a {io['type']} {io.get('repr')} instead of one element-wise Spectrum"
+    r = io['res']
+    if r['wave'] != c['w1']: return f'{what}: wavelength grid changed'
+    want = NP[c['fn']](lv, np.array(c['v1']))
+    if not all_close(r['value'], list(np.broadcast_to(want, (len(c['w1']),))), 1e-14): return f"{what} is not element-wise: {r['value']} vs {list(want)}"
+    if 'comm' in io and (io['comm']['wave'] != r['wave'] or not all_close(io['comm']['value'], r['value'], 1e-15)): return f'{what} differs from Spectrum * {c["left"]}'
+    return None
+
 def oracle(c, io):
     k = c['kind']
+    if k == 'reflected': return _oracle_reflected(c, io)
     if k == 'bb' and 'guard' not in io: return _oracle_bb(c, io)
     if 'guard' in io:
         return ('grid does not span the union at the requested sampling: the operation on %d and %d samples tried to build an absurd grid (%s)'
